@@ -118,6 +118,9 @@ type c16ctx struct {
 	o   drive.Opt // other optimisation flags (RO is set by the helper)
 	off *term.Term
 	n   *int64
+	// alias: the second variable of the first same-typed pair is registered
+	// under the KEY of the first (two names for one slot); costs are per name
+	alias bool
 }
 
 // c16Tree compiles p with Reordering on under the cost map and returns the
@@ -127,6 +130,17 @@ func (c *c16ctx) tree(costs map[string]float64, ro bool) *term.Term {
 	o.RO = ro
 	o.Costs = costs
 	cfg := c.h.NewConfig(c.p.Vars, o)
+	if c.alias {
+	pair:
+		for i := range c.p.Vars {
+			for j := i + 1; j < len(c.p.Vars); j++ {
+				if c.p.Vars[i].Ty == c.p.Vars[j].Ty {
+					cfg.VariableKeyMap[c.p.Vars[j].Name] = cfg.VariableKeyMap[c.p.Vars[i].Name]
+					break pair
+				}
+			}
+		}
+	}
 	e, err := c.h.Compile(cfg, c.p.Src, 0)
 	atomic.AddInt64(c.n, 1)
 	if err != nil {
@@ -142,7 +156,7 @@ func (c *c16ctx) tree(costs map[string]float64, ro bool) *term.Term {
 }
 
 func (c *c16ctx) desc(costs map[string]float64, extra map[string]interface{}) map[string]interface{} {
-	m := map[string]interface{}{"source": c.p.Src, "other_options": c.o.String(), "costs": fmt.Sprint(costs)}
+	m := map[string]interface{}{"source": c.p.Src, "other_options": c.o.String(), "costs": fmt.Sprint(costs), "first_same_typed_variable_pair_shares_one_key": c.alias}
 	for k, v := range extra {
 		m[k] = v
 	}
@@ -243,7 +257,7 @@ func c16(r *rep.Run) {
 		max = 8
 		r.SetBudget(1800e9)
 	}
-	r.Rule = "every and/or/not/if/compare/registered-operator tree up to the node bound with pairwise distinct variables and with every two same-typed variables merged into one (repeated mentions), plus wide and/or nodes of 2..40 operands (flat and produced by flattening) with tied costs; cost maps: every single entry (each variable, each operator name, the `variable` and `operator` class defaults) at every rung of the ladder {-100, 0, 0.5, 5, 1e3, 1e9}, alone and next to one other priced name (at -100, 1e3 and, for the first name, 5e6), and EVERY pair of maps differing in that one entry (lo < hi); other optimisations all off and all on. Oracles on the parsed Dump trees: (a) Reordering-on tree == Reordering-off tree up to permutation of and/or operand lists only; (b) siblings of identical shape after replacing variables by their price keep source order (stability, no cost formula needed); (c) raising an entry never moves an operand mentioning it ahead of a sibling that does not; (d) at 1e9 every mentioning operand follows every non-mentioning one; (e) siblings not mentioning the entry keep their relative order across the two maps. non-trivial = (program, map) pairs in which Reordering actually changed an order"
+	r.Rule = "every and/or/not/if/compare/registered-operator tree up to the node bound with pairwise distinct variables and with every two same-typed variables merged into one (repeated mentions), plus wide and/or nodes of 2..40 operands (flat and produced by flattening) with tied costs; cost maps: every single entry (each variable, each operator name, the `variable` and `operator` class defaults) at every rung of the ladder {-100, 0, 0.5, 5, 1e3, 1e9}, alone and next to one other priced name (at -100, 1e3 and, for the first name, 5e6), and EVERY pair of maps differing in that one entry (lo < hi); other optimisations all off and all on, and (trees below the node bound) with two variable names registered under ONE key. Oracles on the parsed Dump trees: (a) Reordering-on tree == Reordering-off tree up to permutation of and/or operand lists only; (b) siblings of identical shape after replacing variables by their price keep source order (stability, no cost formula needed); (c) raising an entry never moves an operand mentioning it ahead of a sibling that does not; (d) at 1e9 every mentioning operand follows every non-mentioning one; (e) siblings not mentioning the entry keep their relative order across the two maps. non-trivial = (program, map) pairs in which Reordering actually changed an order"
 	r.Assume = []string{"'mentions' means: contains the variable / an application of the operator (for the class defaults: one without an entry of its own)",
 		"ladder of 6 cost values, not all float64 values; NaN and infinities are covered under C02 (meaning) only, since the statement's order laws presuppose comparable costs"}
 	r.Cov["bounds"] = map[string]int{"max_nodes": max}
@@ -345,8 +359,17 @@ func c16(r *rep.Run) {
 		}
 		sort.Strings(names[len(names)-min2(len(names), 6):])
 		names = append(names, "variable", "operator")
-		for _, other := range []drive.Opt{{}, {CF: true, RN: true, FE: true}} {
-			c := &c16ctx{r: r, h: hs[w], p: p, o: other, n: &compiles}
+		type variant struct {
+			o     drive.Opt
+			alias bool
+		}
+		variants := []variant{{drive.Opt{}, false}, {drive.Opt{CF: true, RN: true, FE: true}, false}}
+		if p.Size < max && len(p.Vars) >= 2 && len(p.Vars) <= 6 {
+			variants = append(variants, variant{drive.Opt{}, true})
+		}
+		for _, vr := range variants {
+			other := vr.o
+			c := &c16ctx{r: r, h: hs[w], p: p, o: other, n: &compiles, alias: vr.alias}
 			c.off = c.tree(nil, false)
 			if c.off == nil {
 				continue
